@@ -75,7 +75,7 @@ def _states(out):
 def split_repeated(case, tag, event):
     """add_constraint_and_split between two positions that were already connected by an earlier add_constraint_and_split which
     created a (rounded) split vertex: the second call re-splits next to the old split vertex and constraints get lost"""
-    if tag not in ("split", "ncons", "noncross", "segspec", "geo", "wf", "cdtlocal"):
+    if tag not in ("split", "ncons", "noncross", "segspec", "geo", "wf", "cdtlocal", "panic", "hang", "remove", "remove_cons"):
         return False
     steps = _states(_run(case))
     seen = []          # (frozenset of end point positions, created_split_vertex)
@@ -95,3 +95,83 @@ def split_repeated(case, tag, event):
     return False
 
 KNOWN_CLASSES["split_repeated"] = split_repeated
+
+import struct
+def _fb(tok):
+    return Fraction(struct.unpack('<d', struct.pack('<Q', int(tok)))[0])
+
+def _parse_state(t):
+    nv, ne, nf = int(t[1]), int(t[2]), int(t[3])
+    i = t.index("V") + 1
+    V = [(_fb(t[i + 4 * k]), _fb(t[i + 4 * k + 1]), t[i + 4 * k + 2]) for k in range(nv)]
+    i = t.index("E") + 1
+    E = [tuple(int(x) for x in t[i + 4 * k:i + 4 * k + 4]) for k in range(2 * ne)]
+    return nv, ne, nf, V, E
+
+def steiner_hull_rounding(case, tag, event):
+    """after refine / add_constraint_and_split a Steiner point placed on a convex-hull edge is only the rounded point of that edge:
+    the outer face can have a dent of relative size < 1e-9 (f32: 1e-5) at such a vertex. Everything else (faces ccw, distinct positions) must hold."""
+    if tag != "geo":
+        return False
+    if not any(o.split()[0] in ("refine", "split") for o in case.ops):
+        return False
+    out = _run(case)
+    found = False
+    for line in out.splitlines():
+        t = line.split()
+        if not t or t[0] != "S" or len(t) < 9 or "V" not in t:
+            continue
+        nv, ne, nf, V, E = _parse_state(t)
+        if nf <= 1:
+            continue
+        P = [(x, y) for x, y, _ in V]
+        if len(set(P)) != len(P):
+            return False
+        def orient(a, b, c):
+            return (b[0] - a[0]) * (c[1] - a[1]) - (b[1] - a[1]) * (c[0] - a[0])
+        for e in range(2 * ne):
+            nx, pv, fc, og = E[e]
+            if fc != 0:
+                a, b, c = P[og], P[E[nx][3]], P[E[E[nx][0]][3]]
+                if orient(a, b, c) <= 0:
+                    return False
+                continue
+            a, b = P[og], P[E[e ^ 1][3]]
+            for vi, p in enumerate(P):
+                o = orient(a, b, p)
+                if o > 0:
+                    steiner = any(V[k][2] in ("777000", "888000") for k in (og, E[e ^ 1][3], vi))
+                    l2 = (b[0] - a[0]) ** 2 + (b[1] - a[1]) ** 2
+                    d2 = (p[0] - a[0]) ** 2 + (p[1] - a[1]) ** 2
+                    if not steiner or o * o > Fraction(1, 10 ** (10 if case.scalar == 'f32' else 18)) * l2 * max(d2, l2):
+                        return False
+                    found = True
+    return found
+
+KNOWN_CLASSES["steiner_hull_rounding"] = steiner_hull_rounding
+
+def _all_coords(case):
+    out = []
+    for op in case.ops:
+        for tok in op.split()[1:]:
+            if tok.isdigit() and len(tok) > 12:
+                x = gen.from_bits(int(tok))
+                if x == x and abs(x) != float("inf"):
+                    out.append(abs(x))
+    return out
+
+def f32_underflow_line_iterator(case, tag, event):
+    """f32 triangulations whose coordinate differences are so small that their products underflow in f32 arithmetic (|x| < 2^-63):
+    the line iterator's inexact projections become 0 and it does not advance (can_add_constraint / add_constraint / bulk_load_cdt
+    / LineIntersectionIterator never return)"""
+    if tag != "hang" or case.scalar != "f32":
+        return False
+    cs = [c for c in _all_coords(case) if c > 0]
+    return bool(cs) and max(cs) < 2.0 ** -63
+
+def split_fallback_assert(case, tag, event):
+    """add_constraint_and_split panics in add_splitting_constraint_edge_fallback: assert_ne!(new_edges, Vec::new())"""
+    return tag == "panic" and event is not None and "left_!=_right" in event and "failed___left:_[]" in event
+
+KNOWN_CLASSES["f32_underflow_line_iterator"] = f32_underflow_line_iterator
+KNOWN_CLASSES["split_fallback_assert"] = split_fallback_assert
